@@ -34,6 +34,8 @@ Fixpoint assigned (st : stmt) : list var :=
   | SWhile _ b => assigned b
   | SAssign x _ => [x]
   | SCall _ (Some x) _ _ => [x]
+  | SConv x _ _ => [x]
+  | SCallI _ _ (Some x) _ _ _ _ => [x]
   | _ => []
   end.
 
@@ -71,6 +73,8 @@ Fixpoint stmt_prot (st : stmt) (P : pset) : option pset * bool :=
       let '(_, okb) := stmt_prot body Pt in
       (Some Pf, okc && okb)
   | SReturn _ => (None, true)
+  | SConv x _ _ => (Some (x :: P), true)
+  | SCallI _ _ x xi _ _ _ => (Some (match x with Some y => premove y P | None => P end), pmem xi P)
   end.
 
 Definition guarded (p : program) : bool := forallb (fun fd => snd (stmt_prot (f_body fd) [])) (p_funcs p).
